@@ -39,17 +39,10 @@ Definition requested (w : world) (o : op) : option (nat * (vec -> vec)) :=
       | Some _ => Some (i, fun p => vadd O (or_zero orig) (smul O s (vsub O p (or_zero orig))))
       | None => None end
   | OScaleXYZ i fx fy fz orig =>
-      (* the code's default origin is the first vertex (the docstring says the origin): stated as it is *)
       match get_mesh w i with
-      | Some so =>
-          match (match orig with
-                 | Some v => Some v
-                 | None => match ocells so with c :: _ => Some (rd O h c) | [] => None end
-                 end) with
-          | Some og =>
-              Some (i, fun p => (vx og + fx * (vx p - vx og), vy og + fy * (vy p - vy og), vz og + fz * (vz p - vz og)))
-          | None => None
-          end
+      | Some _ =>
+          let og := or_zero orig in
+          Some (i, fun p => (vx og + fx * (vx p - vx og), vy og + fy * (vy p - vy og), vz og + fz * (vz p - vz og)))
       | None => None end
   | ONormalize i c =>
       match get_mesh w i with
@@ -104,11 +97,9 @@ Proof.
     destruct orig as [og|]; cbn [default_orig]; intros E; inversion E; subst;
       (eexists; split; [reflexivity|]); intros p; apply scale_is_homothety; auto.
   - (* scale_xyz *)
-    destruct (get_mesh w m) as [so|]; [|discriminate]. change scale_xyz_default with DVertex0.
-    destruct orig as [og|]; cbn [default_orig].
-    + intros E; inversion E; subst. eexists; split; [reflexivity|]. intros p. apply scale_xyz_is_axis_scaling; auto.
-    + destruct (ocells so) as [|c0 ct]; [discriminate|]. intros E; inversion E; subst.
-      eexists; split; [reflexivity|]. intros p. apply scale_xyz_is_axis_scaling; auto.
+    destruct (get_mesh w m) as [so|]; [|discriminate]. change scale_xyz_default with DZero.
+    destruct orig as [og|]; cbn [default_orig]; intros E; inversion E; subst;
+      (eexists; split; [reflexivity|]); intros p; apply scale_xyz_is_axis_scaling; auto.
   - (* normalize *)
     destruct (get_mesh w m) as [so|]; [|discriminate]. unfold normalize_maps.
     destruct (bbox O (coords O (mheap (wmem w)) so)) as [[lo hi]|]; [|discriminate].
